@@ -43,7 +43,7 @@ def loc_snapshot(name: str, tag: str) -> bool:
 
 
 def loc_lengths(ln: int, lt: int) -> bool:
-    """Last path component stays under 255 bytes for hex names/tags up to 128 characters (length arithmetic on the
+    """Last path component fits NAME_MAX (255 bytes; the snapshot file name is exactly 255 for 128-character name and tag) for hex names/tags up to 128 characters (length arithmetic on the
     real builders with concrete strings of symbolic... realised lengths).
     pre: 1 <= ln <= 128 and 4 <= lt <= 128 and lt % 4 == 0 and (ln % 8 == 0 or ln < 4)
     post: _
@@ -56,7 +56,7 @@ def loc_lengths(ln: int, lt: int) -> bool:
         c = _R.get_chunk_location(name=name, tag=tag)
         s = _R.get_snapshot_location(name=name, tag=tag)
         tick('loc_lengths', [ln, lt])
-        return len(c.rpartition('/')[2]) < 255 and len(s.rpartition('/')[2]) < 255 and \
+        return len(c.rpartition('/')[2]) <= 255 and len(s.rpartition('/')[2]) <= 255 and \
             _R.parse_chunk_location(c) == (name, tag) and _R.parse_snapshot_location(s) == (name, tag)
 
 
